@@ -19,6 +19,8 @@ import (
 var c08Wraps = []struct{ name, text string }{
 	{"do-last", "(do 1 @)"},
 	{"let-body-last", "(let [z 1] z @)"},
+	{"let-empty-bindings", "(let [] 1 @)"},
+	{"let-list-bindings", "(let (z 1) @)"},
 	{"if-then", "(if true @ 0)"},
 	{"if-else", "(if false 0 @)"},
 	{"cond-clause", "(cond false 0 true @)"},
@@ -111,7 +113,7 @@ func init() {
 		}
 		fam := &vf.Family{
 			Name:    "loop-shapes",
-			Bounds:  "every nesting of depth 0..2 (quick) / 0..3 (thorough) of the 8 tail-position constructs (do-last, let-body-last, if-then, if-else, cond clause, and-last, or-last, fn-body-last) around the recursive call x {self, 2-way mutual, 3-way mutual recursion}; iteration counts 3, 5, 50 (host stack depth at every iteration), thorough: additionally 20000 iterations under a 1 MiB stack limit",
+			Bounds:  "every nesting of depth 0..2 (quick) / 0..3 (thorough) of the 10 tail-position constructs (do-last, let-body-last, let with empty / list-form bindings, if-then, if-else, cond clause, and-last, or-last, fn-body-last) around the recursive call x {self, 2-way mutual, 3-way mutual recursion}; iteration counts 3, 5, 50 (host stack depth at every iteration), thorough: additionally 20000 iterations under a 1 MiB stack limit",
 			Setup:   setup,
 			Timeout: 300e9,
 			N:       func(t string) int64 { tier = t; return int64(len(shapesOf())) },
